@@ -1036,7 +1036,7 @@ def _r7(repo, L):
     for f in repo.functions.values():
         if f.module.name in ("tola.assembly.build_assembly", "tola.assembly.build_utils", "tola.assembly.overlap_result", "tola.assembly.indexed_assembly", "tola.assembly.scaffold", "tola.assembly.assembly", "tola.assembly.assembly_stats"):
             for c in repo.calls_in(f):
-                if dotted(c.func) == "Fragment":
+                if dotted(c.func) == "Fragment" and f.qualname in _remap_reach(repo):
                     sites.add(f.short)
     L.check(sites == {"OverlapResult.trim_fragment"}, "R7", "Fragment()-sites", "remapping constructs fragments only in the cut (coordinates moved inward: C18.R2)", f"fragments are constructed in {sorted(sites)}: sequence can be invented or re-labelled outside the QC'd cut", "src/tola/assembly")
     # reverse()/rename() keep coordinates (C14.R3)
@@ -1048,3 +1048,17 @@ def _r7(repo, L):
         c = [x for x in repo.calls_in(f) if norm(x.func) == "self.__class__"]
         ok = len(c) == 1 and [norm(a) for a in c[0].args][1:3] == ["self.start", "self.end"]
         L.check(ok, "R7", f"Fragment.{nm}", "copies keep the interval", f"Fragment.{nm}() changes the interval", f.loc())
+
+
+_REMAP_REACH = {}
+
+
+def _remap_reach(repo):
+    """functions the remapping (BuildAssembly.remap_to_input_assembly and the fusing / splitting that follows it) can reach"""
+    k = id(repo)
+    if k not in _REMAP_REACH:
+        ba = repo.cls("BuildAssembly")
+        roots = [m for nm, m in ba.methods.items() if nm in ("remap_to_input_assembly", "assemblies_with_scaffolds_fused", "scaffolds_fused_by_name")]
+        _REMAP_REACH.clear()
+        _REMAP_REACH[k] = set(repo.reachable_from(roots))
+    return _REMAP_REACH[k]
